@@ -279,7 +279,7 @@ impl Prop for WeightHistory {
         "weight-history".into()
     }
     fn rule(&self) -> String {
-        "engine of 1..3 generated voices (base + variants); history of 1..12 weight updates on duration / parameter[i] / gv[i] slots, each valid (dyadic, exact sum 1) or invalid (wrong length (shorter, longer, empty) | sum off by 1e-6..0.5 | NaN | +-inf); after every update the result (Ok/Err) and all weight getters are compared with the reference model; finally the waveform is compared with a fresh engine given only the accepted vectors. Non-trivial: a rejected update after an accepted one on the same slot".into()
+        "engine of 1..3 generated voices (base + variants); history of 1..12 operations: weight updates on duration / parameter[i] / gv[i] slots - each valid (dyadic, exact sum 1) or invalid (wrong length (shorter, longer, empty) | sum off by 1e-6..0.5 | NaN | +-inf) - or a reload (the engine's voice set replaced by one of 1..3 voices followed by Condition::load_model, which must reset every slot to the equal weights of the new set); after every update the result (Ok/Err) and all weight getters are compared with the reference model; finally the waveform is compared with a fresh engine given only the accepted vectors. Non-trivial: a rejected update after an accepted one on the same slot".into()
     }
     fn tape_len(&self, _: Tier) -> usize {
         16000
@@ -305,7 +305,14 @@ impl Prop for WeightHistory {
                     1 => Slot::Parameter(t.below(nstreams)),
                     _ => Slot::Gv(t.below(nstreams)),
                 };
-                let kind = ["valid", "valid", "valid", "wrong-length", "sum-off", "nan", "inf", "inf-single"][t.below(8)];
+                let kind = ["valid", "valid", "valid", "wrong-length", "sum-off", "nan", "inf", "inf-single", "reload"][t.below(9)];
+                if kind == "reload" {
+                    // replace the voice set by one of another size and re-run Condition::load_model
+                    let m = t.urange(1, 3);
+                    return Update { slot: Slot::Duration, kind: kind.to_string(), values: vec![m as f64] };
+                }
+                // NB: `n` below is the voice count at decode time; after a reload the check
+                // classifies every update by the voice count then in force
                 let values = match kind {
                     "wrong-length" => {
                         let m = *t.pick(&[n + 1, n.saturating_sub(1), 0, n + 3]);
@@ -337,6 +344,7 @@ impl Prop for WeightHistory {
         let mut m_par = vec![avg.clone(); nstreams];
         let mut m_gv = vec![avg.clone(); nstreams];
         let mut accepted: Vec<&Update> = Vec::new();
+        let mut reloads: Vec<(usize, usize)> = Vec::new();
         let mut rejected_after_accept = false;
         let mut touched = std::collections::HashSet::new();
         let check_getters = |e: &Engine, d: &Vec<f64>, p: &Vec<Vec<f64>>, g: &Vec<Vec<f64>>, step: &str| -> Result<(), Failure> {
@@ -350,8 +358,42 @@ impl Prop for WeightHistory {
             Ok(())
         };
         check_getters(&engine, &m_dur, &m_par, &m_gv, "fresh engine")?;
+        let mut n = n;
+        let mut vs = vs;
         for (k, u) in c.updates.iter().enumerate() {
+            if u.kind == "reload" {
+                let m = (u.values[0] as usize).clamp(1, 3);
+                // cycle through the case's voices to build a set of m voices
+                let base: Vec<_> = vs.clone();
+                let all: Vec<_> = {
+                    let mut v = Vec::new();
+                    for s in &c.voices {
+                        v.push(load_spec(s)?);
+                    }
+                    v
+                };
+                let _ = base;
+                let list: Vec<_> = (0..m).map(|i| all[i % all.len()].clone()).collect();
+                let set = jbonsai::model::VoiceSet::new(list.clone()).map_err(|e| Failure::new("voiceset", e.to_string()))?;
+                engine.voices = set;
+                if let Err(e) = engine.condition.load_model(&engine.voices) {
+                    fail!("load-model", "Condition::load_model failed on a valid voice set: {}", e);
+                }
+                n = m;
+                vs = list;
+                let avg = vec![1.0 / n as f64; n];
+                m_dur = avg.clone();
+                m_par = vec![avg.clone(); nstreams];
+                m_gv = vec![avg.clone(); nstreams];
+                accepted.clear();
+                reloads.push((k, m));
+                touched.clear();
+                check_getters(&engine, &m_dur, &m_par, &m_gv, &format!("after update #{} (reload with {} voices: weights must be the defaults of the new set)", k, m))?;
+                continue;
+            }
             let w = u.weights();
+            // classify against the voice count now in force
+            let valid_now = u.valid() && w.len() == n;
             let iw = engine.condition.get_interporation_weight_mut();
             let r = match u.slot {
                 Slot::Duration => iw.set_duration(&w),
@@ -359,8 +401,24 @@ impl Prop for WeightHistory {
                 Slot::Gv(i) => iw.set_gv(i, &w),
             };
             let key = format!("{:?}", u.slot);
-            if u.valid() {
+            if u.valid() && !valid_now {
+                // a vector that was valid for the old voice count is a wrong-length vector now
+                ensure!(r.is_err(), "invalid-weights-accepted", "update #{} {:?}: {} weights accepted by an engine of {} voices", k, u.slot, w.len(), n);
+                if touched.contains(&key) {
+                    rejected_after_accept = true;
+                }
+            } else if u.valid() {
                 ensure!(r.is_ok(), "valid-weights-rejected", "update #{} {:?} {:?} (valid) was rejected: {:?}", k, u.slot, w, r.err());
+                match u.slot {
+                    Slot::Duration => m_dur = w.clone(),
+                    Slot::Parameter(i) => m_par[i] = w.clone(),
+                    Slot::Gv(i) => m_gv[i] = w.clone(),
+                }
+                accepted.push(u);
+                touched.insert(key);
+            } else if u.kind == "wrong-length" && w.len() == n && (w.iter().sum::<f64>() - 1.0).abs() <= f64::EPSILON {
+                // after a reload a "wrong-length" vector can have exactly the right length: it is valid
+                ensure!(r.is_ok(), "valid-weights-rejected", "update #{} {:?} {:?} has the right length for {} voices but was rejected", k, u.slot, w, n);
                 match u.slot {
                     Slot::Duration => m_dur = w.clone(),
                     Slot::Parameter(i) => m_par[i] = w.clone(),
@@ -377,7 +435,7 @@ impl Prop for WeightHistory {
             check_getters(&engine, &m_dur, &m_par, &m_gv, &format!("after update #{} ({:?}, {})", k, u.slot, u.kind))?;
         }
         // effective weights in synthesis = last accepted
-        let mut fresh = engine_from_voices(vs)?;
+        let mut fresh = engine_from_voices(vs.clone())?;
         for u in &accepted {
             let iw = fresh.condition.get_interporation_weight_mut();
             let w = u.weights();
@@ -405,6 +463,7 @@ impl Prop for WeightHistory {
         let mut rep = Report::new();
         rep.nontrivial = rejected_after_accept;
         rep.class(format!("voices:{}", n));
+        rep.class_if(!reloads.is_empty(), "reloaded-voice-set");
         for u in &c.updates {
             rep.class(format!("update:{}", u.kind));
         }
